@@ -40,16 +40,22 @@ pub struct Case21 {
     pub nonce: bool,
     pub storage: bool,
     pub balance: bool,
+    /// the database has no account record for a target whose info is empty (storage only)
+    #[serde(default)]
+    pub ghost: bool,
+    /// an earlier, committed transaction sends 1 wei to the target
+    #[serde(default)]
+    pub pretouch: bool,
 }
 
 fn init_code() -> Vec<u8> {
     Init::Code1.code()
 }
-pub fn target_of(kind: Kind) -> Address {
+pub fn target_of(kind: Kind, pretouch: bool) -> Address {
     match kind {
         Kind::Create => A.create(1),
         Kind::Create2 => A.create2(U256::from(5).to_be_bytes::<32>(), keccak256(init_code())),
-        Kind::CreateTx => SENDER.create(0),
+        Kind::CreateTx => SENDER.create(pretouch as u64),
     }
 }
 fn creator_code(kind: Kind) -> Vec<u8> {
@@ -64,7 +70,7 @@ fn creator_code(kind: Kind) -> Vec<u8> {
 
 pub fn tx_case(c: &Case21) -> TxCase {
     let spec = spec_from_name(&c.spec);
-    let t = target_of(c.kind);
+    let t = target_of(c.kind, c.pretouch);
     let mut w = base_world();
     w.insert(A, PlainAcc::contract(&creator_code(c.kind)));
     let mut acc = PlainAcc::default();
@@ -85,7 +91,7 @@ pub fn tx_case(c: &Case21) -> TxCase {
     }
     let mut tc = TxCase::new(spec, w);
     tc.tx.gas_limit = 5_000_000;
-    tc.tx.nonce = Some(0);
+    tc.tx.nonce = Some(c.pretouch as u64);
     if c.kind == Kind::CreateTx {
         tc.tx.to = None;
         tc.tx.data = init_code().into();
@@ -110,37 +116,70 @@ where
     }
 }
 
+fn two_step<DB: Database + revm::DatabaseCommit>(c: &Case21, tc: &TxCase, mut db: DB) -> Result<ResultAndState, String>
+where
+    DB::Error: std::fmt::Debug,
+{
+    if c.pretouch {
+        let mut pre = tc.clone();
+        pre.tx.to = Some(target_of(c.kind, c.pretouch));
+        pre.tx.data = Default::default();
+        pre.tx.value = U256::from(1);
+        pre.tx.nonce = Some(0);
+        let r = run_on(&pre, &mut db)?;
+        if !r.result.is_success() {
+            return Err(format!("pre-touch transaction failed: {:?}", r.result));
+        }
+        db.commit(r.state);
+    }
+    run_on(tc, &mut db)
+}
 pub fn execute(c: &Case21) -> Result<ResultAndState, String> {
     let tc = tx_case(c);
-    let t = target_of(c.kind);
+    let t = target_of(c.kind, c.pretouch);
     let mut tdb = TestDb::new(&tc.world);
+    tdb.hide_empty = c.ghost;
     match c.layer {
         Layer::Direct => run_on(&tc, tdb),
         Layer::MutRef => run_on(&tc, &mut tdb),
         Layer::Boxed => run_on(&tc, Box::new(tdb)),
         Layer::WrapRef => run_on(&tc, WrapDatabaseRef(tdb)),
-        Layer::StateOver => run_on(&tc, State::builder().with_database(tdb).build()),
-        Layer::StateBundleOver => run_on(&tc, State::builder().with_database(tdb).with_bundle_update().build()),
-        Layer::CacheOver => run_on(&tc, CacheDB::new(tdb)),
+        Layer::StateOver => two_step(c, &tc, State::builder().with_database(tdb).build()),
+        Layer::StateBundleOver => two_step(c, &tc, State::builder().with_database(tdb).with_bundle_update().build()),
+        Layer::CacheOver => two_step(c, &tc, CacheDB::new(tdb)),
         Layer::CacheInserted => {
             // everything lives in the cache database itself
             let mut db = CacheDB::new(EmptyDB::default());
             for (a, acc) in &tc.world {
-                db.insert_account_info(*a, acc.info());
+                if !(c.ghost && *a == t) {
+                    db.insert_account_info(*a, acc.info());
+                }
                 for (k, v) in &acc.storage {
                     db.insert_account_storage(*a, *k, *v).unwrap();
                 }
             }
-            let _ = t;
-            run_on(&tc, db)
+            two_step(c, &tc, db)
         }
     }
 }
 
 pub fn check(c: &Case21) -> (Vec<(String, String)>, String) {
+    let (mut v, sig) = check_inner(c);
+    // known pattern (see C20): State forgets the storage of a codeless, nonce-less account once it changes
+    if c.pretouch && c.storage && !c.code && !c.nonce && matches!(c.layer, Layer::StateOver | Layer::StateBundleOver) {
+        // (the creation that wrongly proceeds also changes the target: one root cause, one entry)
+        if let Some(i) = v.iter().position(|x| x.0.starts_with("collision-not-detected")) {
+            let mut x = v.swap_remove(i);
+            x.0 = "state-forgets-storage-of-codeless-account".into();
+            v = vec![x];
+        }
+    }
+    (v, sig)
+}
+fn check_inner(c: &Case21) -> (Vec<(String, String)>, String) {
     let mut v = vec![];
     let expect_collision = c.code || c.nonce || c.storage;
-    let t = target_of(c.kind);
+    let t = target_of(c.kind, c.pretouch);
     let r = match execute(c) {
         Ok(r) => r,
         Err(e) => {
@@ -193,7 +232,10 @@ pub fn check(c: &Case21) -> (Vec<(String, String)>, String) {
         }
         // target unchanged
         if let Some(acc) = r.state.get(&t) {
-            let pre = tc.world.get(&t).cloned().unwrap_or_default();
+            let mut pre = tc.world.get(&t).cloned().unwrap_or_default();
+            if c.pretouch {
+                pre.balance += U256::from(1);
+            }
             let changed = acc.info.balance != pre.balance || acc.info.nonce != pre.nonce || acc.info.code_hash != pre.code_hash() || acc.is_created() || acc.storage.values().any(|s| s.present_value != s.original_value);
             if changed {
                 v.push(("collision-changed-target".into(), format!("target after the failed creation: {:?} status {:?}", acc.info, acc.status)));
@@ -220,7 +262,19 @@ pub fn run(ctx: &Ctx) -> i32 {
             }
             for layer in LAYERS {
                 for bits in 0..16u8 {
-                    cases.push(Case21 { spec: spec_name(s), kind, layer, code: bits & 1 != 0, nonce: bits & 2 != 0, storage: bits & 4 != 0, balance: bits & 8 != 0 });
+                    let base = Case21 { spec: spec_name(s), kind, layer, code: bits & 1 != 0, nonce: bits & 2 != 0, storage: bits & 4 != 0, balance: bits & 8 != 0, ghost: false, pretouch: false };
+                    cases.push(base.clone());
+                    let commits = matches!(layer, Layer::StateOver | Layer::StateBundleOver | Layer::CacheOver | Layer::CacheInserted);
+                    if commits {
+                        cases.push(Case21 { pretouch: true, ..base.clone() });
+                    }
+                    // storage-only target without an account record: only where the layer itself can be in that
+                    // shape (a pass-through to the database's own answers, or storage inserted into a CacheDB
+                    // without account info); a caching layer over such a database has no way to tell it from a
+                    // destroyed account and is not asked to
+                    if bits == 4 && matches!(layer, Layer::Direct | Layer::MutRef | Layer::Boxed | Layer::WrapRef | Layer::CacheInserted) {
+                        cases.push(Case21 { ghost: true, ..base.clone() });
+                    }
                 }
             }
         }
@@ -235,7 +289,7 @@ pub fn run(ctx: &Ctx) -> i32 {
                 a.evaluations += 1;
                 a.states += 1;
                 a.transitions += 1;
-                a.distinct(&(&c.spec, c.kind, c.layer, c.code, c.nonce, c.storage, &sig));
+                a.distinct(&(&c.spec, c.kind, c.layer, c.code, c.nonce, c.storage, c.ghost, c.pretouch, &sig));
                 a.outcome(&format!("created={sig}"));
                 if a.samples.is_empty() && c.storage && !c.code && !c.nonce {
                     a.sample(|| json!({"case": c, "created": sig}));
@@ -249,7 +303,7 @@ pub fn run(ctx: &Ctx) -> i32 {
         .collect();
     let acc = merge_all(accs);
     let meta = Meta {
-        rule: "target pre-state in {code, nonce, storage, balance}^4 x {CREATE, CREATE2, create transaction} x 8 database layers (plain database, &mut, Box, WrapDatabaseRef, State, State with bundle tracking, CacheDB over it, storage inserted into CacheDB) x 12 specs; distinct = distinct (spec, kind, layer, pre-state, created?)".into(),
+        rule: "target pre-state in {code, nonce, storage, balance}^4 x {CREATE, CREATE2, create transaction} x 8 database layers (plain database, &mut, Box, WrapDatabaseRef, State, State with bundle tracking, CacheDB over it, storage inserted into CacheDB) x 12 specs; for the committing layers also after an earlier committed transaction sent 1 wei to the target, and for the storage-only target also with a database that keeps no account record for it; distinct = distinct (spec, kind, layer, pre-state, created?)".into(),
         assumptions: vec!["EOFCREATE / EOF create transactions (OSAKA) are not driven".into(), "the plain test database implements has_storage from its own maps".into()],
         bounds: json!({"cases": cases.len()}),
         min_distinct: 500,
